@@ -133,8 +133,8 @@ def check_label(label, files, primary, code, spellings, msg):
         m = QUOTED.search(msg or "")
         if m:
             q = m.group(1) if m.group(1) is not None else m.group(2)
-            q = q.replace("\\n", "\n").replace("\\r", "\r")
-            if piece != q:
+            # (messages that show a line break as \\n: accepted; a backslash that is part of the text stays one)
+            if piece != q and piece != q.replace("\\n", "\n").replace("\\r", "\r"):
                 return ("label-not-quoted-text", "label:quoted:%s" % code, {"label_text": piece[:40], "quoted": q[:40]})
         return None
     if spellings is not None:
@@ -257,7 +257,9 @@ def add_oscat(text, rng, non_ascii):
     body = rng.choice(["any text\nsecond line", "x", "", "a (* b *) c"]) if not non_ascii else \
         rng.choice(["ébc", "日本語\nzwei", "grüße €", "ñ", "🙂", "a🙂b\n𝄞"])
     nl = rng.choice(["\n", "\r\n"])
-    hdr = "%s%s%s%s%s%s" % (OSCAT_OPEN, nl, body.replace("\n", nl), nl, OSCAT_CLOSE, nl)
+    # the keys on lines of their own, or on the line of the free text - and of the code that follows
+    a, b, c = rng.choice([(nl, nl, nl), (nl, nl, nl), (" ", " ", " "), ("", "", " "), (nl, " ", nl), (" ", nl, "")])
+    hdr = "%s%s%s%s%s%s" % (OSCAT_OPEN, a, body.replace("\n", nl), b, OSCAT_CLOSE, c)
     return hdr + text
 
 
@@ -368,6 +370,11 @@ def shard(shard_i, nshards, payload):
                 import hostile
                 text = hostile.truncate_with_tail(text, rng)
                 kind += "+tail"
+            if i % 11 == 7 and "'" not in text:
+                # character strings that run over line ends (the lexer takes them as one token): what follows them is on a
+                # later line
+                text += "\nPROGRAM mls%d\nVAR s : STRING; w : WSTRING; x : INT; END_VAR\ns := 'a\nb';x := 1;\n  x := 2; w := \"é\r\n\r\nü\"; x := 3;\nEND_PROGRAM\n" % i
+                kind += "+multi-line-string"
             if i % 13 == 3:
                 # text handed over from memory (an editor buffer) may start with a byte order mark or another
                 # invisible character: it is not a token, and everything after it keeps its own position
@@ -397,6 +404,20 @@ def shard(shard_i, nshards, payload):
                 if v:
                     res.violation(v[0], v[1], v[2], case)
                     continue
+                if i % 2 == 0 and core.PLC_BIN and "\r" not in text and "\f" not in text:
+                    # `echo` and `check` draw the problem of a file that does not parse at the line and column of its label
+                    fpath = os.path.join(tmp, "e%d.st" % i)
+                    open(fpath, "w").write(text)
+                    rc_ = ref_linecol(text, op["diag"]["primary"]["start"])
+                    for cmd in ("echo", "check"):
+                        r = core.run_cli([cmd, fpath], tmp)
+                        res.evaluations += 1
+                        res.count("cli-position:" + cmd)
+                        drawn = [(c[3], c[4]) for c in core.parse_cli_diags(r["err"]) if c[0] == op["diag"]["code"] and c[2]]
+                        if rc_ and drawn and not any(l_ == rc_[0] + 1 and (c_ - 1) == rc_[1][1] for l_, c_ in drawn):
+                            res.violation("cli-position", "cli:%s:linecol:%s" % (cmd, op["diag"]["code"]),
+                                          {"cli": drawn[:3], "reference": [rc_[0] + 1, rc_[1][1] + 1]}, case)
+                    os.unlink(fpath)
             res.distinct.add(core.key_of(text))
             res.count("tokens_checked", len(ot["tokens"]))
             if len(res.samples) < 1:
